@@ -259,6 +259,20 @@ def run(repo, rep):
     from . import c10
 
     rep.run_borrowed(c10, {"C10-d": "C06-m"}, repo)
+    rep.run_borrowed(c15, {"C15-e": "C06-d"}, repo, only_sites=("register_command_stream_util", "register_command_stream_generator", "architecture_features"))
+    rep.run_borrowed(c04, {"C04-a": "C06-l"}, repo)
+    # an explicit rescale carried by the operation wins over everything else in the add/sub scaling chain
+    ge_ = gen.func("generate_scaling_for_elementwise")
+    from ..cfg import cfg_of as _cfg6
+
+    c6 = _cfg6(ge_)
+    rt = c6.nodes_where(lambda n_: n_.kind == "test" and str(norm(n_.expr)) in ("npu_op.rescale is not None", "npu_op.rescale is None", "npu_op.rescale"))
+    nt = c6.nodes_where(lambda n_: n_.kind == "test" and str(norm(n_.expr)).startswith("None in ("))
+    if not rt or not nt:
+        raise AnalysisError("generate_scaling_for_elementwise: rescale / missing-scale tests not found")
+    for t_ in nt:
+        rep.check(any(c6.dominates(r_, t_) for r_ in rt), "C06-d", _site("generate_scaling_for_elementwise"), f"`{str(norm(c6.nodes[t_].expr))[:60]}` is only consulted after `npu_op.rescale is not None` was",
+                  "the missing-scale fallback (1, 0) is chosen before the operation's explicit rescale is looked at: OFM_SCALE does not carry the requested pair")
     # zero point registers: get_zero_point returns the operation's zero point whenever a quantisation is given (scale or not)
     util = repo.mod("register_command_stream_util")
     itz = Interp(repo, util)
